@@ -26,4 +26,10 @@ def replayGroups : List String := ["newStates: CheckConnection", "newStates: Che
 is why "flagged by the outer pipeline before this pipeline's `applyResults` runs" is `Cfg.q0`). -/
 def flagWriteSites : List String := ["applyResults: cr.msgMeta.Quarantine", "applyResults: cr.msgMeta.Quarantine"]
 
+/-- The only update of the key set of `rcptModifiersState` (the record of which destination blocks
+take part in the body stage: `Body` / `BodyNonAtomic` range over it) in the pipeline package: the
+insertion in `getRcptModifiers` (`Model.useBlock`).  No `delete`, no `clear`, no re-assignment: a
+block that got in stays in, which is why `Dlv.used` only grows. -/
+def blockMapUpdates : List String := ["getRcptModifiers: set dd.rcptModifiersState[rcptBlock]"]
+
 end MaddyVerif.Expect.C06Calls
